@@ -194,6 +194,13 @@ def ask(q):
     A = objs.action(a)
     det_chain = [n for n in comp['chain'] if n in M.DETERMINISTIC] or ['move_agent']
     ns = transition_with_copy(envs.mk_transition(det_chain), s, A, rng=make_rng(0))
+    if kind == 'user_rays':
+        # what user code may do: ask the library's memoised 360-degree fan for the very origin and area the built-in ray-traced view uses
+        from gym_gridverse.geometry import Area, Position
+        from gym_gridverse.utils import raytracing as rt
+        vh, vw = M.area_shape(area)
+        rays = rt.cached_compute_rays(Position(-area[0][0], -area[1][0]), Area((0, vh - 1), (0, vw - 1)))
+        return [[(int(p.y), int(p.x)) for p in r] for r in rays[:8]]
     if kind == 'step':
         return objs.canon_state(ns)
     if kind == 'obs':
@@ -358,6 +365,16 @@ def enum_bigview(tier, shard, nshards):
                 q['state']['grid'][p[0]][p[1]] = 'W'
                 others.append(q)
             yield {'q': q0, 'others': others, 'q0_first': first, 'big': 'view'}
+    # a small ray-traced view; user code asks the other memoised fan for the same origin and area, before or after
+    for first in (True, False):
+        i += 1
+        if i % nshards != shard:
+            continue
+        base = {'grid': [['F', 'W', 'F', 'F', 'F'], ['F', 'F', 'F', 'W', 'F'], ['W', 'F', 'F', 'F', 'F'], ['F', 'F', 'W', 'F', 'E:NONE'], ['N:NONE', 'F', 'F', 'F', 'F']], 'agent': [4, 2, 'F', '_']}
+        comp = {'chain': ['move_agent', 'turn_agent'], 'rewards': [{'name': 'living_reward', 'reward': -1.0}], 'term': {'name': 'reach_exit'}, 'obs': 'raytracing', 'view': [1, 1]}
+        q0 = {'space': {'types': ['Floor', 'Wall', 'Exit', 'Beacon'], 'colors': ['NONE']}, 'state': base, 'comp': comp, 'area': [[-4, 0], [-2, 2]], 'action': 'TURN_LEFT', 'seed': 0, 'kind': 'obs'}
+        others = [dict(copy.deepcopy(q0), kind='user_rays'), dict(copy.deepcopy(q0), kind='step'), dict(copy.deepcopy(q0), kind='user_rays')]
+        yield {'q': q0, 'others': others, 'q0_first': first, 'big': 'fans'}
 
 
 # ------------------------------------------------------------------ shipped compositions
@@ -407,9 +424,9 @@ CHECKS = [
     Check('history', oracle_hist, strategy=strat_hist, examples={'quick': 120, 'thorough': 500}, shards={'quick': 6, 'thorough': 16}, pristine=True,
           rule='a deterministic question (step / observation / reward / shortest-path reward / termination) asked before and after 0-25 other questions (same keys, other poses, > 10 new walkability layouts; families of worlds differing in one interior cell under a 33x33 ray-traced view or inside a world of more than 1000 cells); a tenth of the short cases and all big ones: every answer == the answer of a process that has executed nothing before',
           required=['cache_key_rehit', '>10_layouts', 'q:shortest', 'q:obs', 'reshape_twin', 'big:grid', 'pristine_answers']),
-    Check('big_view_family', oracle_hist, enumerate=enum_bigview, shards={'quick': 2, 'thorough': 4}, pristine=True,
-          rule='a 5x5 world and three worlds differing from it in one cell, all observed through the same 33x33 (thorough also 25x41) ray-traced view, in both orders: every answer == the answer of a process that has executed nothing before',
-          required=['big:view']),
+    Check('big_view_family', oracle_hist, enumerate=enum_bigview, shards={'quick': 4, 'thorough': 6}, pristine=True,
+          rule='a 5x5 world and three worlds differing from it in one cell, all observed through the same 33x33 (thorough also 25x41) ray-traced view, in both orders; a 5x5 ray-traced view with user code asking the other memoised fan of the library for the same origin and area: every answer == the answer of a process that has executed nothing before',
+          required=['big:view', 'big:fans']),
     Check('shipped', oracle_shipped, strategy=strat_shipped, examples={'quick': 3, 'thorough': 10}, shards={'quick': 4, 'thorough': 16},
           rule='all 22 shipped configurations (and perturbed ones) driven through the functional interface: purity and alias-freedom at every step'),
 ]
